@@ -57,6 +57,10 @@ func main() {
 		Child:         child,
 		ClassifyDeath: classifyDeath,
 		Post: func(c *ev.Check, outs []*run.Outcome) {
+			c.Require("max.archive_file_bytes", 4<<20+1) // restarted on a history file above 4 MiB
+			c.Require("max.devices_authorized", 130)     // one week record above 4 MiB
+			c.Require("max.archived_weeks", 17)
+			c.Require("max.authorization_records", 443) // authorization file above 64 KiB
 			mx := map[string]float64{}
 			for _, o := range outs {
 				if o != nil && o.WallS > mx[o.Batch.Kind] {
@@ -69,6 +73,8 @@ func main() {
 				"changed.register", "changed.authorize", "changed.conflict.same-key", "changed.conflict.resigned", "changed.conflict.fresh-key", "changed.conflict.other-device-key",
 				"changed.report.normal", "changed.report.equivocating", "changed.report.over-capacity", "changed.report.negative", "changed.rotation",
 				"unchanged.duplicate", "state.banned_slots", "state.archived_weeks", "surface_checks", "scripted.completed",
+				"wide.completed", "deep.completed", "restart.before_expiration_of_device_with_reports", "restart.at_expiration_of_device_with_reports",
+				"restart.after_expiration_of_device_with_reports", "restart.device_without_expiration_has_reports",
 				"long.completed", "long.accepted_reports", "long.recent_list_truncations", "long.equivocation_at_truncation", "long.fresh_at_truncation"} {
 				c.Require(k, 1)
 			}
@@ -109,6 +115,15 @@ func plan(tier string, seed int64) []run.Batch {
 	}
 	for i := 0; i < nb; i++ {
 		bs = append(bs, run.Batch{Kind: "histories", Seed: seed*100000 + int64(i), N: n, TimeoutS: 400})
+	}
+	// scale histories: wide (many devices / authorization records) and deep (many weeks)
+	ns := 1
+	if tier == "thorough" {
+		ns = 3
+	}
+	for i := 0; i < ns; i++ {
+		bs = append(bs, run.Batch{Kind: "wide", Seed: seed*100000 + 8000 + int64(i), N: 1, TimeoutS: 600})
+		bs = append(bs, run.Batch{Kind: "deep", Seed: seed*100000 + 8500 + int64(i), N: 1, TimeoutS: 600, Params: map[string]string{"rounds": fmt.Sprint(6 + i)}})
 	}
 	// long histories: more accepted reports than the server's recent-report list holds
 	nl := 2
@@ -170,6 +185,8 @@ type hist struct {
 	all        map[uint32]*drv.Dev // every device the harness ever created, by id
 	logged     map[uint32]int      // state-changing reports sent per device id
 	next       uint32
+	forceExp   uint32            // expiration of the next authorization (scripted)
+	lastID     uint32            // id of the last accepted fresh authorization
 	cur        *server.VerifSnap // state after the last restart pair
 	ops        []string
 	opn        int
@@ -259,6 +276,17 @@ func (h *hist) opRegister() string {
 
 func (h *hist) mkDev(id uint32, key refenc.Key) (*drv.Dev, refenc.Auth) {
 	a := h.MkAuth(id, key.Pub, uint64(1000+h.rng.Intn(200000)))
+	// expirations inside the simulated time range (so that restarts happen before, at and
+	// after them), none at all, and far away
+	switch x := h.rng.Intn(10); {
+	case h.forceExp != 0:
+		a.Expiration = h.forceExp
+	case x < 2:
+		a.Expiration = 0
+	case x < 6:
+		a.Expiration = 1 + uint32(h.rng.Intn(8000))
+	}
+	a = a.Signed(h.GCA.Priv)
 	return &drv.Dev{ID: id, Key: key, Auth: a}, a
 }
 
@@ -270,6 +298,7 @@ func (h *hist) opAuthorize() string {
 	st, _, _ := retry(func() (int, []byte, error) { return h.Authorize(a) })
 	if st == 200 {
 		h.all[id] = d
+		h.lastID = id
 		// in half of the cases the new device reports over capacity / exactly at its limit BEFORE the next
 		// restart: whatever the capacity rule needs must survive the restart together with the device
 		if h.rng.Intn(2) == 0 {
@@ -646,6 +675,21 @@ func (h *hist) restartPair(class string, k int) {
 	}
 	k = wmodel.CatchUps(newClock, S.Offset)
 	h.op("restart x2, clock at start-up %d (now-offset=%d, model catch-up rotations %d)", newClock, int64(newClock)-int64(S.Offset), k)
+	for id, a := range S.Equipment {
+		if h.logged[id] == 0 {
+			continue
+		}
+		switch e := a.Expiration; {
+		case e == 0:
+			h.r.Count("restart.device_without_expiration_has_reports", 1)
+		case newClock == e:
+			h.r.Count("restart.at_expiration_of_device_with_reports", 1)
+		case newClock > e:
+			h.r.Count("restart.after_expiration_of_device_with_reports", 1)
+		default:
+			h.r.Count("restart.before_expiration_of_device_with_reports", 1)
+		}
+	}
 	fileBefore := h.ReadFile("allDeviceStats.dat")
 	logBefore := len(h.ReadFile("equipment-reports.dat"))
 	authBefore := h.ReadFile("equipment-authorizations.dat")
@@ -706,6 +750,10 @@ func (h *hist) restartPair(class string, k int) {
 			h.viol("archive-file-differs-from-memory", extra, "allDeviceStats.dat (%d bytes) is not the reference serialization of the %d archived weeks in memory (%d bytes)", len(fileAfter), len(S1.History), len(mem))
 		}
 	}
+	h.r.Max("max.archive_file_bytes", int64(len(fileAfter)))
+	h.r.Max("max.authorization_records", int64(len(authBefore)/148))
+	h.r.Max("max.devices_authorized", int64(len(S1.Equipment)))
+	h.r.Max("max.archived_weeks", int64(len(S1.History)))
 	if !bytes.Equal(authBefore, h.ReadFile("equipment-authorizations.dat")) {
 		h.r.Count("info.authorization_file_changed_by_restart", 1)
 	}
@@ -1081,6 +1129,26 @@ func (h *hist) runScripted() {
 			return
 		}
 	}
+	// a device whose authorization expires inside the history: restarts one slot before, at and after
+	h.forceExp = drv.Clock() + 40 + uint32(h.rng.Intn(20))
+	exp := h.forceExp
+	ok := step(h.opAuthorize(), 0)
+	h.forceExp = 0
+	if !ok {
+		return
+	}
+	for _, c := range []uint32{exp - 1, exp, exp + 1} {
+		only := h.all[h.lastID]
+		h.op("clock to %d (expiration of device %d is %d), one report of it", c, h.lastID, exp)
+		drv.SetClock(c)
+		if only != nil && only.Auth.Expiration == exp {
+			h.Inject(only.Report(c-5, 77+uint64(c-exp+1)).Bytes())
+			h.logged[only.ID]++
+		}
+		if !step("report.around-expiration", 0) {
+			return
+		}
+	}
 	if !step(h.opConflict("same-key"), 0) { // a device with reports on disk gets banned
 		return
 	}
@@ -1254,6 +1322,95 @@ func (h *hist) runLong(variant string) {
 	h.r.Count("long.completed", 1)
 }
 
+// opAuthorizeMany authorizes n fresh devices in one prefix.
+func (h *hist) opAuthorizeMany(n int) string {
+	h.op("authorize %d fresh devices (ids from %d)", n, h.next)
+	for i := 0; i < n; i++ {
+		id := h.next
+		h.next += 1 + uint32(h.rng.Intn(3))
+		d, a := h.mkDev(id, refenc.GenKey(h.rng))
+		if st, _, _ := retry(func() (int, []byte, error) { return h.Authorize(a) }); st == 200 {
+			h.all[id] = d
+		}
+	}
+	return "authorize"
+}
+
+// opBanMany bans n authorized devices by conflicting authorizations in one prefix.
+func (h *hist) opBanMany(n int) string {
+	ds := h.authorizedKnown()
+	if len(ds) < n {
+		n = len(ds)
+	}
+	h.op("conflicting authorizations for %d devices", n)
+	for _, d := range ds[:n] {
+		a := d.Auth
+		a.Debt++
+		a = a.Signed(h.GCA.Priv)
+		retry(func() (int, []byte, error) { return h.Authorize(a) })
+	}
+	return "conflict.same-key"
+}
+
+// runWide: more authorization records than fit into 64 KiB (442), a week
+// record of more than 130 devices (> 4 MiB), more accepted reports than the
+// recent list holds; restart pair after every prefix, two rotations.
+func (h *hist) runWide() {
+	step := func(class string, k int) bool {
+		if h.dead || class == "" {
+			return false
+		}
+		h.restartPair(class, k)
+		return !h.dead
+	}
+	if !step(h.opRegister(), 0) || !step(h.opAuthorizeMany(200), 0) || !step(h.opBanMany(190), 0) || !step(h.opAuthorizeMany(130), 0) {
+		return
+	}
+	h.clockForward(uint32(450 + h.rng.Intn(100)))
+	if !step(h.opLongReports(1100, true), 0) {
+		return
+	}
+	h.opImpact()
+	if !step(h.opRotate(), 0) { // first record of ~140 devices
+		return
+	}
+	if !step(h.opLongReports(300, false), 1) { // second one by start-up catch-up, on a file above 4 MiB
+		return
+	}
+	if !step(h.opReports("normal"), 0) {
+		return
+	}
+	h.r.Count("wide.completed", 1)
+}
+
+// runDeep: a dozen devices over 18+ weeks (three catch-up rotations per
+// restart), so that allDeviceStats.dat grows beyond 4 MiB record by record.
+func (h *hist) runDeep(rounds int) {
+	step := func(class string, k int) bool {
+		if h.dead || class == "" {
+			return false
+		}
+		h.restartPair(class, k)
+		return !h.dead
+	}
+	if !step(h.opRegister(), 0) || !step(h.opAuthorizeMany(12), 0) {
+		return
+	}
+	h.clockForward(uint32(450 + h.rng.Intn(100)))
+	for i := 0; i < rounds; i++ {
+		if i%3 == 1 {
+			h.opImpact()
+		}
+		if !step(h.opLongReports(60+h.rng.Intn(60), i%2 == 0), 3) {
+			return
+		}
+	}
+	if !step(h.opReports("normal"), 0) || !step(h.opRotate(), 0) {
+		return
+	}
+	h.r.Count("deep.completed", 1)
+}
+
 // runSharedKey: a fresh ShortID is authorized with the public key of an
 // already authorized device (no ShortID conflict). Whether the server accepts
 // or refuses it, shutdown and restart must succeed afterwards.
@@ -1285,6 +1442,23 @@ func (h *hist) runSharedKey(variant string) {
 }
 
 func child(b run.Batch, r *ev.Result) {
+	if b.Kind == "wide" || b.Kind == "deep" {
+		h := newHist(b, r, 0)
+		if h == nil {
+			return
+		}
+		if b.Kind == "wide" {
+			h.runWide()
+		} else {
+			var rounds int
+			fmt.Sscan(b.P("rounds"), &rounds)
+			h.runDeep(rounds)
+		}
+		r.Count("histories."+b.Kind, 1)
+		r.Sample(map[string]interface{}{"history": h.tag, "ops": len(h.ops), "archived_weeks": len(h.cur.History), "devices": len(h.cur.Equipment), "last_ops": tailOps(h.ops, 4)})
+		h.stop()
+		return
+	}
 	if b.Kind == "long" {
 		h := newHist(b, r, 0)
 		if h == nil {
